@@ -6,6 +6,8 @@ under a sweep of storage configurations (level count 1..7, block size, compressi
 log) - metamorphic twins: every configuration must give the one answer the history prescribes.
 TLC checks `Latest` (and SI) on the bounded model, where the physical arrangement and the retention rule are explicit."""
 from checks import _mvcc, _retention
+import json
+
 from vlib import core
 
 MANIFEST = {
@@ -20,7 +22,8 @@ MANIFEST = {
              "case-exhaustively on the real CompactionIterator (latest reader and `below` versions)."),
     "design_ref": "DESIGN.md §4 C06",
     "note": ("Bounds: 2 keys, <= 3-6 commits, <= 2-4 flushes, <= 2-4 compaction rounds, <= 1 reopen; option sweep: level_count "
-             "1/2/3/7, block 64/128/4096, snappy, bloom on/off, cache 0/default, vlog on/off, versioning on/off. "
+             "1/2/3/7, block 64/128/4096, snappy, bloom on/off, cache 0/default, vlog on/off, versioning on/off; directed: reopen with "
+             "a different level_count (both directions). "
              "Compaction inputs in the model are whole levels (tiny key space)."),
     "technique": "TLA+ model checking (TLC) + scenario replay under option sweep (metamorphic) on the real engine",
 }
@@ -56,8 +59,21 @@ def run(ctx):
             _mvcc.export_and_replay(ctx, "sim%d" % i, sw, sim=1500, depth=20, MaxCommits=8, MaxFlushes=5,
                                     MaxCompactions=5, MaxSteps=20,
                                     **dict(common, Versioning="TRUE" if "--versioning" in sw else "FALSE"))
+    level_change(ctx)
     ctx.cov["exhaustive"] = True
     ctx.cov["option_sweep"] = SWEEP
+
+
+def level_change(ctx):
+    """directed: written with one level_count, reopened with another (2->4, 4->2, 3->7, 7->3, 1->3, 3->1), compactions at
+    every level, another reopen: scans and point reads must stay those of the logical history"""
+    s = core.run_driver("level_change", [], timeout=600)
+    if s["cases"] == 0:
+        raise core.ToolError("level_change ran no case")
+    ctx.add_driver(s)
+    for v in s["violations"]:
+        ctx.violation({"driver": "level_change", "case": v.get("case")}, {"class": str(v.get("kind")), "level_change": True},
+                      "%s: %s" % (v.get("kind"), json.dumps({k: v[k] for k in v if k != "kind"})[:400]))
     ctx.cov["rule"] = ("edge cover of the bounded Mvcc state graph (no readers, 4 write kinds, reopen) + random behaviours, "
                        "each replayed on real Trees under 4 option sets; answers must equal ReadAt(hist)")
     ctx.assumptions += ["background tasks are kept idle (high L0 trigger); flush/compaction rounds are driven through the "
@@ -68,5 +84,7 @@ def replay(ctx, doc):
     rp = doc["replay"]
     if rp.get("driver") == "retention_run":
         _retention.replay(ctx, rp, "C06")
+    elif rp.get("driver") == "level_change":
+        level_change(ctx)
     else:
         _mvcc.replay(ctx, rp)
